@@ -250,6 +250,12 @@ class EditGen:
         if s == 'options.bfg':
             return [['append', s, "argument('extra{}', default='d')\n"
                      .format(self.n)]], 'script_semantic:options'
+        if s.endswith('/options.bfg'):
+            # a nested options script: another default for its argument
+            text = self.world.read(s)
+            new = re.sub(r"default='n\d+'", "default='n{}'".format(
+                self.n + 1), text)
+            return [['write', s, new]], 'script_semantic:nested-options'
         if s == 'toolchain.bfg':
             x = rng.random()
             text = self.world.read(s)
